@@ -133,6 +133,42 @@ def run(cx):
     ticked = re.findall(r"__redu_lcd_tick_\w+\((__redu_lcd_anim_dev_\d+),", lp_txt)
     r.check(sorted(started) == sorted(ticked), "emit/animation-started-in-loop-is-ticked", (em, em.func("_emit_block")), f"an animation started inside the main loop is started as {started} but the injected tick at the head of loop() advances {ticked}: the tick arm is emitted before the animate arm has registered the animation")
 
+    # whole scripts through the parser (partial evaluation of parse()): however the script is written - animation started before
+    # the loop, host-style explicit `lcd.tick()` / `lcd.tick(now)` calls in the loop, under a condition, two displays - the
+    # loop body holds exactly one LCDTick per animated display (a tick of a display that never animates is a no-op: not counted)
+    tick_sites = [n for q_, f_ in pm.funcs.items() for n in walk_local(f_, include_self=False) if isinstance(n, ast.Call) and call_name(n) == "LCDTick" and pm.enclosing_func(n) is f_]
+    r.check(len(tick_sites) == 1 and pm.enclosing_func(tick_sites[0]) is pf, "parser/LCDTick-built-only-by-the-injection", (pm, tick_sites[-1] if tick_sites else pf), f"LCDTick nodes are constructed at {len(tick_sites)} sites ({sorted({pm.enclosing_func(t_).name for t_ in tick_sites})}); only parse()'s per-display injection may build them, any other site adds a second step per pass")
+    head = "from Reduino.Displays import LCD\nfrom Reduino.Utils import sleep\nlcd = LCD(i2c_addr=0x27)\nlcd2 = LCD(rs=12, en=11, d4=5, d5=4, d6=3, d7=2)\nx = 0\n"
+    scripts = {
+        "animate-before-loop": (head + "lcd.animate('scroll', 0, 'hello world', speed_ms=0)\nwhile True:\n    sleep(10)\n", {"lcd": 1}),
+        "explicit-tick-in-loop": (head + "lcd.animate('scroll', 0, 'hello world', speed_ms=0)\nwhile True:\n    lcd.tick()\n    sleep(10)\n", {"lcd": 1}),
+        "explicit-tick(now)-in-loop": (head + "lcd.animate('blink', 0, 'hi', speed_ms=0)\nwhile True:\n    x = x + 10\n    lcd.tick(x)\n", {"lcd": 1}),
+        "explicit-tick-under-if": (head + "lcd.animate('bounce', 0, 'hi', speed_ms=0)\nwhile True:\n    if x > 2:\n        lcd.tick()\n    x = x + 1\n", {"lcd": 1}),
+        "two-displays": (head + "lcd.animate('scroll', 0, 'a', speed_ms=0)\nlcd2.animate('typewriter', 1, 'b', speed_ms=0)\nlcd.animate('blink', 1, 'c', speed_ms=0)\nwhile True:\n    lcd2.tick()\n    sleep(1)\n", {"lcd": 1, "lcd2": 1}),
+    }
+
+    def count_ticks(nodes, acc):
+        for n_ in nodes:
+            if type(n_).__name__ == "LCDTick":
+                acc[n_.name] = acc.get(n_.name, 0) + 1
+            for f_ in ("body", "else_body", "try_body", "branches", "handlers"):
+                sub = getattr(n_, f_, None)
+                if isinstance(sub, list):
+                    count_ticks(sub, acc)
+        return acc
+
+    for label, (src_, want_) in scripts.items():
+        try:
+            _it, out_ = pe.parse_source(src_)
+        except dl.Unsupported as e:
+            raise AnalysisError(f"parse() left the evaluable subset on script `{label}`: {e}")
+        if out_.kind != "return":
+            r.ok(f"{label}: rejected ({out_.value})")
+            continue
+        got_ = count_ticks(list(out_.value.loop_body), {})
+        in_setup = count_ticks(list(out_.value.setup_body), {})
+        r.check(all(got_.get(k_, 0) == v_ for k_, v_ in want_.items()) and not in_setup, f"parse/script[{label}]-one-tick-per-animated-display", (pm, pf), f"script `{label}`: LCDTick nodes per loop() pass {got_} (in setup: {in_setup}), expected {want_}: a display advanced twice per pass runs its animations at double speed, data-dependent ticks break the rate limit's meaning")
+
     # ---- C18-NAMES ---------------------------------------------------------------------------
     r = cx.rule("C18-NAMES", "animation names agree between host, parser and both emitter tables; every named C++ helper exists with the arity of its call; the host tick handles exactly those names", floor=12)
     hcls = hm.cls("LCD")
